@@ -393,7 +393,15 @@ func glueRuntime(r *Rng, st *Stats, n int) {
 	var cases []rtCase
 	for i := 0; i < n; i++ {
 		v := func() int { return r.Range(1, 50) }
-		switch r.Intn(8) {
+		switch r.Intn(10) {
+		case 8, 9: // import-equals aliases of depth 1..4 (executed: an alias that is kept over a type-only root throws)
+			ie := genImportEquals(r)
+			ts := strings.ReplaceAll(ie.p.ts, "export ", "")
+			if strings.Contains(ie.p.ts, "export import") {
+				ts = ie.p.ts
+			}
+			cases = append(cases, rtCase{kind: "import-equals-deep", ts: strings.ReplaceAll(strings.ReplaceAll(ie.p.ts, "export import", "import"), "export const zz = 1;\n", ""), ref: ie.ref})
+			_ = ts
 		case 0: // const enum inlining, same file and across files (bundle)
 			g := genEnumDecl(r, "CE")
 			g.isConst = true
@@ -523,6 +531,25 @@ func knownDefectReplays(st *Stats) {
 		res, err := RunNodeScripts([]string{out, refI}, 3000)
 		if err == nil && !res[0].Same(res[1]) {
 			st.Fail("known-I-write-to-sibling-namespace-export-not-rewritten", map[string]string{"scenario": "known-I", "typescript": tsI, "esbuild_output": out, "reference_js": refI}, res[0].String(), res[1].String())
+		}
+	}
+	// K: an import-equals alias used only as a type inside a namespace body is not erased
+	tsK := "declare namespace Types { namespace Inner { class Box {} } }\nnamespace App { import Box = Types.Inner.Box; export function f(b?: Box) { return 1; } }\n$p(\"k\", App.f());\n"
+	refK := "var App = {}; App.f = function (b) { return 1; };\n$p(\"k\", App.f());\n"
+	if out, e := compileTS(rtCase{ts: tsK}); e == "" {
+		res, err := RunNodeScripts([]string{out, refK}, 3000)
+		if err == nil && !res[0].Same(res[1]) {
+			st.Fail("known-K-type-only-import-equals-inside-namespace-not-erased", map[string]string{"scenario": "known-K", "typescript": tsK, "esbuild_output": out, "reference_js": refK}, res[0].String(), res[1].String())
+		}
+	}
+	// L: under minify-syntax adjacent import-equals statements are merged and only the first declaration is inspected
+	tsL := "namespace A { export type T = 1; export const v = 2 }\nimport X = A.T; import Y = A.v;\nlet t: X = Y;\n$p(\"l\", t);\n"
+	refL := "var A = { v: 2 };\nconst Y = A.v;\nlet t = Y;\n$p(\"l\", t);\n"
+	if res := api.Transform(tsL, api.TransformOptions{Loader: api.LoaderTS, LogLevel: api.LogLevelSilent, MinifySyntax: true}); len(res.Errors) == 0 {
+		out := string(res.Code)
+		rr, err := RunNodeScripts([]string{out, refL}, 3000)
+		if err == nil && !rr[0].Same(rr[1]) {
+			st.Fail("known-L-merged-import-equals-under-minify-syntax", map[string]string{"scenario": "known-L", "typescript": tsL, "options": "minify-syntax", "esbuild_output": out, "reference_js": refL}, rr[0].String(), rr[1].String())
 		}
 	}
 	// J: valid JavaScript rejected by the ts loader when lowering to es2015
